@@ -314,8 +314,18 @@ func (t *Dense) TensorMul(other Tensor, axesA, axesB []int) (retVal *Dense, err 
 	}
 
 	// we borrowClone because we don't want to touch the original Tensors
-	doT := t.Clone().(*Dense)
-	doOther := other.Clone().(*Dense)
+	// (column-major operands are contracted through row-major copies: transpose+reshape below rely on row-major storage)
+	var doT, doOther *Dense
+	if t.o.IsColMajor() {
+		doT = asRowMajor(t).(*Dense)
+	} else {
+		doT = t.Clone().(*Dense)
+	}
+	if od, ok := other.(*Dense); ok && od.o.IsColMajor() {
+		doOther = asRowMajor(od).(*Dense)
+	} else {
+		doOther = other.Clone().(*Dense)
+	}
 	defer ReturnTensor(doT)
 	defer ReturnTensor(doOther)
 
